@@ -9,6 +9,14 @@
     `unionT_bridgeForest` : every edge stays a bridge (`bridge_of_project` with the projection that halves the nodes of one
     parity and collapses the other parity to one node);
   * `realises_blockDiag` : `Realises` is closed under block-diagonal composition.
+
+  Gluing two bridge forests for the 2-sum (marker forest edge `r` of `T1`, marker walk `wc` from `sc` to `tc` in `T2`):
+  * `glueT T1 T2 rows a b sc tc` : the edges `rows` of `T1` (all but `r`), nodes doubled except that the ends `a`, `b` of
+    the marker edge become the odd copies of `sc`, `tc`, followed by the edges of `T2` with nodes doubled plus one;
+  * `glueT_bridgeForest` : every edge stays a bridge (`bridge_of_project` onto `T1` with the marker contracted, resp. onto
+    `T2` with each side of the marker in `T1` collapsed to the matching end of the walk);
+  * `walk_glue` : a walk of `T1` maps to a walk of the glued forest, the marker step replaced by `wc` or its reverse
+    (`stepG`); `mem_glue_lt`, `mem_glue_ge`, `nodup_glue` : its steps, and that its edges stay pairwise distinct.
 -/
 import CmrProofs.Lemmas.GraStepLemmas
 import CmrProofs.Lemmas.SumsLemmas
@@ -185,5 +193,297 @@ theorem realises_blockDiag {signed : Bool} {m1 n1 m2 n2 : Nat} {A B : Mat} (hA :
     · exact (pathEntry_shiftBy_lt h1).symm
     · rw [pathEntry_shiftBy_ge nd (by omega)]
       exact hent _ (by omega)
+
+open Classical
+
+/-! ### gluing two forests along a forest edge of the first and a walk of the second -/
+
+/-- nodes of the first forest: the ends `a`, `b` of the marker edge go to the ends `sc`, `tc` of the walk (odd copies) -/
+def φg (a b sc tc : Nat) (x : Nat) : Nat := if x = a then 2 * sc + 1 else if x = b then 2 * tc + 1 else 2 * x
+
+theorem φg_a (a b sc tc : Nat) : φg a b sc tc a = 2 * sc + 1 := by simp [φg]
+theorem φg_b {a b : Nat} (hab : a ≠ b) (sc tc : Nat) : φg a b sc tc b = 2 * tc + 1 := by
+  unfold φg; rw [if_neg (Ne.symm hab), if_pos rfl]
+
+/-- the edges `rows` of `T1` (marker removed) followed by the edges of `T2` -/
+def glueT (T1 T2 : List Edge) (rows : List Nat) (a b sc tc : Nat) : List Edge :=
+  contractT T1 (φg a b sc tc) rows ++ T2.map (renameE (2 * · + 1))
+
+theorem glueT_length (T1 T2 : List Edge) (rows : List Nat) (a b sc tc : Nat) :
+    (glueT T1 T2 rows a b sc tc).length = rows.length + T2.length := by simp [glueT, contractT_length]
+
+theorem adj_contract {T : List Edge} {φ : Nat → Nat} {rows : List Nat} (hlt : ∀ k ∈ rows, k < T.length) {k' x y : Nat}
+    (h : Adj (contractT T φ rows) k' x y) :
+    ∃ k a' b', rows[k']? = some k ∧ x = φ a' ∧ y = φ b' ∧ Adj T k a' b' := by
+  obtain ⟨e', he', hends⟩ := h
+  obtain ⟨k, e, hr, he, rfl⟩ := contractT_getElem?_inv hlt he'
+  simp only [renameE] at hends
+  rcases hends with ⟨h1, h2⟩ | ⟨h1, h2⟩
+  · exact ⟨k, e.u, e.v, hr, h1.symm, h2.symm, e, he, Or.inl ⟨rfl, rfl⟩⟩
+  · exact ⟨k, e.v, e.u, hr, h1.symm, h2.symm, e, he, Or.inr ⟨rfl, rfl⟩⟩
+
+theorem adj_glue {T1 T2 : List Edge} {rows : List Nat} {a b sc tc : Nat} (hlt : ∀ k ∈ rows, k < T1.length) {k' x y : Nat}
+    (h : Adj (glueT T1 T2 rows a b sc tc) k' x y) :
+    (k' < rows.length ∧ ∃ k a' b', rows[k']? = some k ∧ x = φg a b sc tc a' ∧ y = φg a b sc tc b' ∧ Adj T1 k a' b') ∨
+      (rows.length ≤ k' ∧ ∃ a' b', x = 2 * a' + 1 ∧ y = 2 * b' + 1 ∧ Adj T2 (k' - rows.length) a' b') := by
+  obtain ⟨e', he', hends⟩ := h
+  unfold glueT at he'
+  by_cases hk : k' < rows.length
+  · rw [List.getElem?_append_left (by simpa [contractT_length] using hk)] at he'
+    exact Or.inl ⟨hk, adj_contract hlt ⟨e', he', hends⟩⟩
+  · rw [List.getElem?_append_right (by simpa [contractT_length] using hk), contractT_length] at he'
+    exact Or.inr ⟨by omega, adj_rename ⟨e', he', hends⟩⟩
+
+/-- side of the marker edge on which a node of `T1` lies, as a node of `T2` -/
+noncomputable def Ψg (T1 : List Edge) (r a b sc tc x : Nat) : Nat :=
+  if ReachOn T1 (· ≠ r) a x then sc else if ReachOn T1 (· ≠ r) b x then tc else 0
+
+theorem Ψg_congr {T1 : List Edge} {r a b sc tc x y : Nat} (h : ReachOn T1 (· ≠ r) x y) :
+    Ψg T1 r a b sc tc x = Ψg T1 r a b sc tc y := by
+  have h1 : ReachOn T1 (· ≠ r) a x ↔ ReachOn T1 (· ≠ r) a y := ⟨fun g => g.trans h, fun g => g.trans h.symm⟩
+  have h2 : ReachOn T1 (· ≠ r) b x ↔ ReachOn T1 (· ≠ r) b y := ⟨fun g => g.trans h, fun g => g.trans h.symm⟩
+  unfold Ψg
+  simp only [h1, h2]
+
+noncomputable def ψ2g (T1 : List Edge) (r a b sc tc y : Nat) : Nat :=
+  if y % 2 = 1 then y / 2 else Ψg T1 r a b sc tc (y / 2)
+
+theorem ψ2g_odd (T1 : List Edge) (r a b sc tc y : Nat) : ψ2g T1 r a b sc tc (2 * y + 1) = y := by
+  unfold ψ2g; rw [if_pos (by omega)]; omega
+
+theorem ψ2g_φ {T1 : List Edge} {r a b sc tc : Nat} (hab : ¬ ReachOn T1 (· ≠ r) a b) (x : Nat) :
+    ψ2g T1 r a b sc tc (φg a b sc tc x) = Ψg T1 r a b sc tc x := by
+  unfold φg
+  by_cases h1 : x = a
+  · subst h1
+    rw [if_pos rfl, ψ2g_odd]
+    unfold Ψg; rw [if_pos (ReachOn.refl _)]
+  · rw [if_neg h1]
+    by_cases h2 : x = b
+    · subst h2
+      rw [if_pos rfl, ψ2g_odd]
+      unfold Ψg; rw [if_neg hab, if_pos (ReachOn.refl _)]
+    · rw [if_neg h2]
+      unfold ψ2g
+      rw [if_neg (by omega), Nat.mul_div_cancel_left x (by omega)]
+
+noncomputable def ψ1g (T1 T2 : List Edge) (rows : List Nat) (a sc y : Nat) : Nat :=
+  if y % 2 = 0 then compRep T1 (fun k => k ∉ rows) (y / 2)
+  else if ReachOn T2 (fun _ => True) sc (y / 2) then compRep T1 (fun k => k ∉ rows) a else 0
+
+theorem ψ1g_odd (T1 T2 : List Edge) (rows : List Nat) (a sc y : Nat) :
+    ψ1g T1 T2 rows a sc (2 * y + 1) = if ReachOn T2 (fun _ => True) sc y then compRep T1 (fun k => k ∉ rows) a else 0 := by
+  unfold ψ1g
+  rw [if_neg (by omega)]
+  have : (2 * y + 1) / 2 = y := by omega
+  rw [this]
+
+theorem ψ1g_φ {T1 T2 : List Edge} {rows : List Nat} {a b sc tc : Nat}
+    (hρ : compRep T1 (fun k => k ∉ rows) a = compRep T1 (fun k => k ∉ rows) b)
+    (hW : ReachOn T2 (fun _ => True) sc tc) (x : Nat) :
+    ψ1g T1 T2 rows a sc (φg a b sc tc x) = compRep T1 (fun k => k ∉ rows) x := by
+  unfold φg
+  by_cases h1 : x = a
+  · subst h1
+    rw [if_pos rfl, ψ1g_odd, if_pos (ReachOn.refl _)]
+  · rw [if_neg h1]
+    by_cases h2 : x = b
+    · subst h2
+      rw [if_pos rfl, ψ1g_odd, if_pos hW, hρ]
+    · rw [if_neg h2]
+      unfold ψ1g
+      rw [if_pos (by omega), Nat.mul_div_cancel_left x (by omega)]
+
+theorem glueT_bridgeForest {T1 T2 : List Edge} (hb1 : IsBridgeForest T1) (hb2 : IsBridgeForest T2) {rows : List Nat}
+    {r : Nat} {e : Edge} (hnd : rows.Nodup) (hmem : ∀ k, k ∈ rows ↔ k < T1.length ∧ k ≠ r) (he : T1[r]? = some e)
+    {sc tc : Nat} (hW : ReachOn T2 (fun _ => True) sc tc) :
+    IsBridgeForest (glueT T1 T2 rows e.tail e.head sc tc) := by
+  have hlt : ∀ k ∈ rows, k < T1.length := fun k hk => ((hmem k).mp hk).1
+  have hr : r ∉ rows := fun h => ((hmem r).mp h).2 rfl
+  have hab : ¬ ReachOn T1 (· ≠ r) e.tail e.head := by
+    intro h
+    rcases e.tail_head with ⟨h1, h2⟩ | ⟨h1, h2⟩
+    · rw [h1, h2] at h; exact hb1 r e he h
+    · rw [h1, h2] at h; exact hb1 r e he h.symm
+  have hρ : compRep T1 (fun k => k ∉ rows) e.tail = compRep T1 (fun k => k ∉ rows) e.head :=
+    compRep_eq_of_reach (ReachOn.single (P := fun k => k ∉ rows) hr (adj_tail_head he))
+  intro k' e' he'
+  by_cases hk : k' < rows.length
+  · refine bridge_of_project (T := contractT T1 (compRep T1 (fun k => k ∉ rows)) rows)
+      (ψ1g T1 T2 rows e.tail sc) (fun k' => if k' < rows.length then some k' else none) ?_ ?_
+      (contractT_bridgeForest hb1 hnd hlt) he' (by simp [hk])
+    · intro k2 x y hadj
+      rcases adj_glue hlt hadj with ⟨hlt2, k, a', b', hrk, rfl, rfl, e2, he2, hends⟩ | ⟨hge, a', b', rfl, rfl, h⟩
+      · refine Or.inl ⟨k2, by simp [hlt2], ?_⟩
+        rw [ψ1g_φ hρ hW, ψ1g_φ hρ hW]
+        refine ⟨_, contractT_getElem?_of hrk he2, ?_⟩
+        simp only [renameE]
+        rcases hends with ⟨h1, h2⟩ | ⟨h1, h2⟩
+        · exact Or.inl ⟨by rw [h1], by rw [h2]⟩
+        · exact Or.inr ⟨by rw [h1], by rw [h2]⟩
+      · refine Or.inr ⟨by simp; omega, ?_⟩
+        rw [ψ1g_odd, ψ1g_odd]
+        have : ReachOn T2 (fun _ => True) sc a' ↔ ReachOn T2 (fun _ => True) sc b' :=
+          ⟨fun g => g.trans (ReachOn.single trivial h), fun g => g.trans (ReachOn.single trivial h.symm)⟩
+        simp only [this]
+    · intro k1 k2 k h1 h2
+      split at h1 <;> split at h2 <;> simp at h1 h2
+      omega
+  · refine bridge_of_project (T := T2) (ψ2g T1 r e.tail e.head sc tc)
+      (fun k' => if k' < rows.length then none else some (k' - rows.length)) ?_ ?_ hb2 he' (by simp [hk])
+    · intro k2 x y hadj
+      rcases adj_glue hlt hadj with ⟨hlt2, k, a', b', hrk, rfl, rfl, hadj1⟩ | ⟨hge, a', b', rfl, rfl, h⟩
+      · refine Or.inr ⟨by simp [hlt2], ?_⟩
+        rw [ψ2g_φ hab, ψ2g_φ hab]
+        have hkr : k ≠ r := ((hmem k).mp (List.mem_of_getElem? hrk)).2
+        exact Ψg_congr (ReachOn.single (P := (· ≠ r)) hkr hadj1)
+      · exact Or.inl ⟨k2 - rows.length, by simp; omega, by rw [ψ2g_odd, ψ2g_odd]; exact h⟩
+    · intro k1 k2 k h1 h2
+      split at h1 <;> split at h2 <;> simp at h1 h2
+      omega
+
+/-! ### walks of the first forest in the glued forest -/
+
+/-- image of a step: the marker edge becomes the walk `wc` (or its reverse), moved behind the edges `rows` -/
+def stepG (rows : List Nat) (r : Nat) (wc : List (Nat × Bool)) (x : Nat × Bool) : List (Nat × Bool) :=
+  if x.1 = r then shiftBy rows.length (if x.2 then wc else revWalk wc) else [(rows.idxOf x.1, x.2)]
+
+theorem walk_glue {T1 T2 : List Edge} {rows : List Nat} {r : Nat} {e : Edge}
+    (hmem : ∀ k, k ∈ rows ↔ k < T1.length ∧ k ≠ r) (he : T1[r]? = some e) (hab : e.tail ≠ e.head)
+    {sc tc : Nat} {wc : List (Nat × Bool)} (hwc : IsWalk T2 sc tc wc) {s t : Nat} {w : List (Nat × Bool)}
+    (h : IsWalk T1 s t w) :
+    IsWalk (glueT T1 T2 rows e.tail e.head sc tc) (φg e.tail e.head sc tc s) (φg e.tail e.head sc tc t)
+      (w.flatMap (stepG rows r wc)) := by
+  have hK : rows.length = (contractT T1 (φg e.tail e.head sc tc) rows).length := (contractT_length _ _ _).symm
+  induction h with
+  | nil => exact IsWalk.nil _
+  | @fwd s t k e' p hk ht _ ih =>
+    rw [List.flatMap_cons]
+    by_cases hkr : k = r
+    · subst hkr
+      rw [he] at hk; cases hk
+      subst ht
+      have : stepG rows k wc (k, true) = shiftBy rows.length wc := by simp [stepG]
+      rw [this]
+      refine IsWalk.append ?_ ih
+      rw [φg_a, φg_b hab]
+      exact walk_append_right hK (walk_rename (2 * · + 1) hwc)
+    · have hin : k ∈ rows := (hmem k).mpr ⟨(List.getElem?_eq_some_iff.mp hk).1, hkr⟩
+      have : stepG rows r wc (k, true) = [(rows.idxOf k, true)] := by simp [stepG, hkr]
+      rw [this]
+      refine IsWalk.append (walk_append_left _ ?_) ih
+      refine IsWalk.fwd (contractT_getElem?_of (List.getElem?_idxOf hin) hk) (by rw [renameE_tail, ht]) ?_
+      rw [renameE_head]; exact IsWalk.nil _
+  | @bwd s t k e' p hk ht _ ih =>
+    rw [List.flatMap_cons]
+    by_cases hkr : k = r
+    · subst hkr
+      rw [he] at hk; cases hk
+      subst ht
+      have : stepG rows k wc (k, false) = shiftBy rows.length (revWalk wc) := by simp [stepG]
+      rw [this]
+      refine IsWalk.append ?_ ih
+      rw [φg_a, φg_b hab]
+      exact walk_append_right hK (walk_rename (2 * · + 1) hwc.reverse)
+    · have hin : k ∈ rows := (hmem k).mpr ⟨(List.getElem?_eq_some_iff.mp hk).1, hkr⟩
+      have : stepG rows r wc (k, false) = [(rows.idxOf k, false)] := by simp [stepG, hkr]
+      rw [this]
+      refine IsWalk.append (walk_append_left _ ?_) ih
+      refine IsWalk.bwd (contractT_getElem?_of (List.getElem?_idxOf hin) hk) (by rw [renameE_head, ht]) ?_
+      rw [renameE_tail]; exact IsWalk.nil _
+
+theorem mem_glue_lt {rows : List Nat} {r : Nat} {wc w : List (Nat × Bool)} (hnd : rows.Nodup) (hr : r ∉ rows)
+    (hw : ∀ x ∈ w, x.1 ∈ rows ∨ x.1 = r) {i : Nat} (hi : i < rows.length) (d : Bool) :
+    (i, d) ∈ w.flatMap (stepG rows r wc) ↔ (rows[i], d) ∈ w := by
+  rw [List.mem_flatMap]
+  constructor
+  · rintro ⟨⟨k, d'⟩, hx, hm⟩
+    unfold stepG at hm
+    by_cases hkr : k = r
+    · simp only [hkr, if_true] at hm
+      have := (mem_shiftBy.mp hm).1
+      omega
+    · simp only [hkr, if_false, List.mem_singleton, Prod.mk.injEq] at hm
+      obtain ⟨h1, rfl⟩ := hm
+      have hin : k ∈ rows := (hw _ hx).resolve_right hkr
+      subst h1
+      simpa [List.getElem_idxOf] using hx
+  · intro hx
+    refine ⟨_, hx, ?_⟩
+    have hne : rows[i] ≠ r := fun h => hr (h ▸ List.getElem_mem hi)
+    simp [stepG, hne, hnd.idxOf_getElem]
+
+theorem mem_glue_ge {rows : List Nat} {r : Nat} {wc w : List (Nat × Bool)}
+    (hw : ∀ x ∈ w, x.1 ∈ rows ∨ x.1 = r) {i : Nat} (hi : rows.length ≤ i) (d : Bool) :
+    (i, d) ∈ w.flatMap (stepG rows r wc) ↔
+      ((r, true) ∈ w ∧ (i - rows.length, d) ∈ wc) ∨ ((r, false) ∈ w ∧ (i - rows.length, !d) ∈ wc) := by
+  rw [List.mem_flatMap]
+  constructor
+  · rintro ⟨⟨k, d'⟩, hx, hm⟩
+    unfold stepG at hm
+    by_cases hkr : k = r
+    · subst hkr
+      simp only [if_true] at hm
+      have hm2 := (mem_shiftBy.mp hm).2
+      cases d'
+      · simp only [Bool.false_eq_true, if_false] at hm2
+        exact Or.inr ⟨hx, mem_revWalk.mp hm2⟩
+      · simp only [if_true] at hm2
+        exact Or.inl ⟨hx, hm2⟩
+    · simp only [hkr, if_false, List.mem_singleton, Prod.mk.injEq] at hm
+      have hin : k ∈ rows := (hw _ hx).resolve_right hkr
+      have := List.idxOf_lt_length_of_mem hin
+      omega
+  · rintro (⟨hx, hm⟩ | ⟨hx, hm⟩)
+    · exact ⟨_, hx, by simp only [stepG, if_true]; exact mem_shiftBy.mpr ⟨hi, hm⟩⟩
+    · exact ⟨_, hx, by
+        simp only [stepG, if_true, Bool.false_eq_true, if_false]
+        exact mem_shiftBy.mpr ⟨hi, mem_revWalk.mpr hm⟩⟩
+
+theorem nodup_glue {rows : List Nat} {r : Nat} {wc : List (Nat × Bool)} (hnd : rows.Nodup) (hr : r ∉ rows)
+    (ndc : (wc.map Prod.fst).Nodup) : ∀ {w : List (Nat × Bool)}, (∀ x ∈ w, x.1 ∈ rows ∨ x.1 = r) →
+      (w.map Prod.fst).Nodup → ((w.flatMap (stepG rows r wc)).map Prod.fst).Nodup := by
+  intro w
+  induction w with
+  | nil => intro _ _; simp
+  | cons x w ih =>
+    intro hw nd
+    obtain ⟨k, d⟩ := x
+    simp only [List.map_cons, List.nodup_cons] at nd
+    obtain ⟨hk, nd⟩ := nd
+    have hw' : ∀ x ∈ w, x.1 ∈ rows ∨ x.1 = r := fun x hx => hw x (List.mem_cons_of_mem _ hx)
+    have ih := ih hw' nd
+    rw [List.flatMap_cons, List.map_append, List.nodup_append]
+    refine ⟨?_, ih, ?_⟩
+    · unfold stepG
+      by_cases hkr : k = r
+      · simp only [hkr, if_true]
+        apply nodup_shiftBy
+        cases d
+        · simp only [Bool.false_eq_true, if_false, revWalk_map_fst]
+          exact List.nodup_reverse.mpr ndc
+        · simpa using ndc
+      · simp [hkr]
+    · intro a ha b hb
+      rintro rfl
+      obtain ⟨⟨a', d2⟩, hx2, rfl⟩ := List.mem_map.mp hb
+      simp only at ha
+      obtain ⟨⟨a'', d1⟩, hx1, h11⟩ := List.mem_map.mp ha
+      simp only at h11
+      subst h11
+      unfold stepG at hx1
+      by_cases hkr : k = r
+      · simp only [hkr, if_true] at hx1
+        have hge := (mem_shiftBy.mp hx1).1
+        rcases (mem_glue_ge hw' hge d2).mp hx2 with ⟨h, _⟩ | ⟨h, _⟩
+        · exact hk (hkr ▸ List.mem_map.mpr ⟨_, h, rfl⟩)
+        · exact hk (hkr ▸ List.mem_map.mpr ⟨_, h, rfl⟩)
+      · simp only [hkr, if_false, List.mem_singleton, Prod.mk.injEq] at hx1
+        obtain ⟨h1, _⟩ := hx1
+        have hin : k ∈ rows := (hw (k, d) List.mem_cons_self).resolve_right hkr
+        have hlt : a'' < rows.length := h1 ▸ List.idxOf_lt_length_of_mem hin
+        have := (mem_glue_lt hnd hr hw' hlt d2).mp hx2
+        have hk2 : rows[a''] = k := by subst h1; simp [List.getElem_idxOf]
+        exact hk (List.mem_map.mpr ⟨_, this, hk2⟩)
 
 end Cmr.GraSum
